@@ -22,7 +22,7 @@ PROPS = {
         "theorems": ["cmp_yields_bool", "cmp_mixed", "logical_ops", "truthiness", "division_by_zero", "arithmetic_mismatch", "unary_ops", "paren_irrelevant", "left_assoc_render", "tier_tables", "tier_order", "abs_int",
                      "depth_eq_parenNesting", "eval_render_stageA", "eval_render_stageB", "eval_render", "eval_render_body", "eval_render_outcome", "eval_render_body_outcome", "paren_irrelevant_eval", "ready_immediate", "eval_render_fresh"],
         "open": ["eval_render covers the trees of Ref.Expr (numbers, strings, scalar variables, parentheses, unary and binary operators, ABS, INT); array subscripts, user-function calls and RND inside expressions are outside the spec's tree type and rest on the correspondence slice"],
-        "slices": ["c02"],
+        "slices": ["c02", "num"],
         "level_text": "Spec in Lean: Ref.foldE (value of a syntax tree, strict, left to right) and Ref.render (minimal parentheses). Machine-checked refinement theorem eval_render: for every tree, every state whose current line holds pre ++ render e ++ rest (rest not starting with an operator or '('), with room below the nesting cap, the model's token-stream evaluator returns exactly foldE e and leaves the state unchanged apart from the cursor (moved past the rendering) and the read counter; on an error of the fold it fails with the same error and the nesting counter restored. Corollaries: redundant parentheses never change the evaluator's outcome; the rules of the fold exactly as the property states them; each tier accepts exactly the operators of one precedence level (OR < AND < comparison < +,- < *,/ < ^ < unary). Correspondence slice: all trees with 1-2 (thorough: part of 3) binary operators, all unary/binary pairings, random trees up to size 9 with and without redundant parentheses; text rendered by the Lean spec; implementation's PRINT vs model's PRINT vs the spec's fold (computed by the Lean driver).",
         "level_note": "Full refinement proof for the tree type of the spec; array subscripts / FN calls / RND in expressions only by correspondence. Trusted: Lean kernel; NumOps (IEEE arithmetic, powf, Display) parameters; hand-written model validated by sampling.",
     },
@@ -149,7 +149,7 @@ PROPS = {
         "what": "table facts behind the LIST fixed point: every keyword/operator spelling re-tokenizes to its own token (also before a blank); shape of a LIST line; spelling of DATA strings (quote rule) and of a numeral after an identifier",
         "theorems": ["kw_spelling_roundtrip", "kw_then_blank", "list_line_shape", "data_string_spelling", "numeral_after_identifier", "numeral_elsewhere"],
         "open": ["list_fixpoint for arbitrary token lists (needs C12's whole-line normal form + NumOps respelling law parse(render x) = x)", "parseData (renderData items) = items", "same RUN behaviour (follows from equal token lists by determinism)"],
-        "slices": ["c14"],
+        "slices": ["c14", "num"],
         "level_text": "Machine-checked table facts and spelling rules (Lean 4) that the LIST fixed-point argument rests on: all 39 keyword/operator spellings read from tokenizer.rs re-tokenize to exactly their own token; DATA string quote rule; numeral-after-identifier rule. The fixed-point theorem for arbitrary stored lines is not yet proved; the check rests for it on the correspondence slice (store -> LIST -> reload into a fresh interpreter -> LIST, RUN of both with a READ/PRINT tail that dumps every DATA item; implementation vs model) and on the oracle (identical listing, identical stored tokens, identical transcripts). This slice found a genuine defect on the pinned tree (PRINT A .5 listed as PRINT A 0.5, which reloads as A0 0.5), repaired by fix commit 99b8efc.",
         "level_note": "PARTIAL proof. Trusted: Lean kernel, extractor, NumOps law parse(render x) = x for finite x (tested by the num slice).",
     },
